@@ -45,7 +45,7 @@ fn main() {
         "worker" => {
             let g = |n: &str| flag(&args, n).and_then(|s| s.parse::<u64>().ok()).unwrap_or(0);
             let focus = check::focus_of(&flag(&args, "--focus").unwrap_or_default());
-            let code = check::worker(g("--base"), g("--stream"), focus, g("--faults") == 1, g("--from"), g("--stride").max(1), g("--runs"));
+            let code = check::worker(g("--base"), g("--stream"), focus, g("--faults") == 1, g("--from"), g("--stride").max(1), g("--runs"), g("--emit") == 1);
             std::process::exit(code);
         }
         "selftest" => {
